@@ -15,9 +15,10 @@
 (***************************************************************************)
 EXTENDS Integers, Sequences, TLC, Json
 
-VARIABLES sc, pc, written, nwrites, sent, ret, cancelled, rcv
+VARIABLES sc, pc, written, nwrites, sent, ret, cancelled, rcv,
+          counted    \* increments of the remote-logins counter caused by this line (C19)
 
-vars == <<sc, pc, written, nwrites, sent, ret, cancelled, rcv>>
+vars == <<sc, pc, written, nwrites, sent, ret, cancelled, rcv, counted>>
 
 Kinds == {"accepted", "failed", "unrecognised"}
 
@@ -30,12 +31,15 @@ Init ==
     /\ pc = "idle" /\ written = FALSE /\ nwrites = 0 /\ sent = 0 /\ ret = "none"
     /\ cancelled = (sc.cancelWhen = "before")
     /\ rcv = IF sc.rcvWhen = "start" THEN "ready" ELSE "absent"
+    /\ counted = 0
 
 \* ProcessEntry: prefix / pattern dispatch.
 Start ==
     /\ pc = "idle"
     /\ pc' = IF sc.kind = "unrecognised" THEN "returned" ELSE "writing"
     /\ ret' = IF sc.kind = "unrecognised" THEN "nil" ELSE ret
+    \* the counter is bumped by the dispatch (or by the handler just before the write): before the event exists
+    /\ counted' = IF sc.kind = "unrecognised" THEN counted ELSE counted + 1
     /\ UNCHANGED <<sc, written, nwrites, sent, cancelled, rcv>>
 
 \* eventW.Write(evt): one call; an error is returned to the caller, wrapped.
@@ -46,30 +50,30 @@ Write ==
     /\ IF ~sc.wok THEN pc' = "returned" /\ ret' = "err"
        ELSE IF sc.kind = "accepted" THEN pc' = "sending" /\ ret' = ret
        ELSE pc' = "returned" /\ ret' = "nil"
-    /\ UNCHANGED <<sc, sent, cancelled, rcv>>
+    /\ UNCHANGED <<sc, sent, cancelled, rcv, counted>>
 
 \* select case: logins <- RemoteUserLogin{...}
 Send ==
     /\ pc = "sending" /\ rcv = "ready"
     /\ sent' = sent + 1 /\ pc' = "returned" /\ ret' = "nil"
-    /\ UNCHANGED <<sc, written, nwrites, cancelled, rcv>>
+    /\ UNCHANGED <<sc, written, nwrites, cancelled, rcv, counted>>
 
 \* select case: <-ctx.Done()
 Abort ==
     /\ pc = "sending" /\ cancelled
     /\ pc' = "returned" /\ ret' = "nil"
-    /\ UNCHANGED <<sc, written, nwrites, sent, cancelled, rcv>>
+    /\ UNCHANGED <<sc, written, nwrites, sent, cancelled, rcv, counted>>
 
 \* environment
 EnvReady ==
     /\ sc.rcvWhen = "blocked" /\ pc = "sending" /\ rcv = "absent"
     /\ rcv' = "ready"
-    /\ UNCHANGED <<sc, pc, written, nwrites, sent, ret, cancelled>>
+    /\ UNCHANGED <<sc, pc, written, nwrites, sent, ret, cancelled, counted>>
 
 EnvCancel ==
     /\ sc.cancelWhen = "blocked" /\ pc = "sending" /\ ~cancelled
     /\ cancelled' = TRUE
-    /\ UNCHANGED <<sc, pc, written, nwrites, sent, ret, rcv>>
+    /\ UNCHANGED <<sc, pc, written, nwrites, sent, ret, rcv, counted>>
 
 Next == Start \/ Write \/ Send \/ Abort \/ EnvReady \/ EnvCancel
 
@@ -86,6 +90,9 @@ WriteFailure     == (nwrites = 1 /\ ~sc.wok) => (sent = 0 /\ ret = "err")
 ErrOnlyOnFailure == ret = "err" => (nwrites = 1 /\ ~sc.wok)
 \* "unless its context is cancelled, forwards exactly one login"
 ForwardedUnlessCancelled == (pc = "returned" /\ sc.kind = "accepted" /\ sc.wok /\ ~cancelled) => sent = 1
+\* C19 on this path: an emitted event has been counted exactly once by the time the worker has returned - whether the
+\* hand-off happened or was abandoned - and nothing is counted twice
+CountedOnce == counted <= 1 /\ ((pc = "returned" /\ written) => counted = 1)
 \* the hand-off never happens before the write completed (C10, causal order)
 NoSendBeforeWrite == [][sent' > sent => written]_vars
 \* progress: a blocked hand-off ends once the receiver is ready or the context is cancelled
